@@ -105,13 +105,29 @@ def gather_cases(tier):
                         if k == 3 and n == 3:
                             continue
                         yield dict(kind="gather", n=n, es=es, res=res, mc=mc, k=k)
+    # concurrent FIRST awaits of a DAG whose setup nodes have not run yet
+    from .c03 import up_closed_sets
+    for n in (2, 3):
+        for es in shapes(n):
+            for st in up_closed_sets(n, es):
+                if len(st) == n:
+                    continue
+                for res in (("ta" * n)[:n], ("at" * n)[:n], "a" * n):
+                    for mc in (1, 2):
+                        yield dict(kind="gather", n=n, es=es, res=res, mc=mc, k=2, setup=list(st))
+    # one AsyncDAG execution, wide shapes, EVERY completion order (the await-based wait must release successors exactly like the blocking one)
+    for es in shapes(4):
+        if len(es) > 3 or not es:
+            continue
+        for res in ("aaaa", "atat", "aata", "taaa"):
+            yield dict(kind="async_sched", n=4, es=es, res=res, mc=3, is_async=True, ties=0)
 
 
 def gprog_of(c) -> GProg:
-    p = prog_of(dict(n=c["n"], es=c["es"], res=c["res"], mc=c["mc"], is_async=True))
+    p = prog_of(dict(n=c["n"], es=c["es"], res=c["res"], mc=c["mc"], is_async=True, setup=c.get("setup", [])))
     nodes = list(p.nodes)
     for i in range(c["n"]):
-        if not nodes[i].edges:
+        if not nodes[i].edges and not nodes[i].setup:
             nodes[i] = GNode(**{**nodes[i].__dict__, "edges": (Edge(-1, "pos"),)})
     return GProg(nodes=tuple(nodes), mc=c["mc"], is_async=True, params=(("x", NODEFAULT),))
 
@@ -128,6 +144,10 @@ def run_gather(acc, c, only_prefix=None):
     holder = {}
 
     def run_one(prefix):
+        nonlocal d
+        if c.get("setup"):
+            d, _ns = build_gprog(p)  # setup results are kept by the instance: every schedule starts from a fresh one
+
         async def op():
             ctl = H.ctl()
             drv = H.Driver(ctl, k)
@@ -174,17 +194,19 @@ def run_gather(acc, c, only_prefix=None):
             if st != "ok":
                 acc.violation(V("await_raised", f"await #{i} raised {val!r}"), c, pfx, res.trace, src)
                 continue
-            sers = {t.serial for t in val if isinstance(t, Tok)}
+            setup_idx = {j for j, nd in enumerate(p.nodes) if nd.setup}
+            sers = {t.serial for j, t in enumerate(val) if isinstance(t, Tok) and j not in setup_idx} if isinstance(val, tuple) else set()
             if len(sers) != 1 or not isinstance(val, tuple) or len(val) != len(ids) or any(not isinstance(t, Tok) or t.label != ids[j] for j, t in enumerate(val)):
                 acc.violation(V("await_wrong_value", f"await #{i} (argument {argv[i]}) returned {val!r}"), c, pfx, res.trace, src)
                 continue
             s = sers.pop()
             ent = by_serial.get(s, [])
-            if sorted(e[1] for e in ent) != sorted(ids):
+            # non-setup nodes: exactly once in this execution; a setup node runs in this execution or was computed by a sibling
+            if sorted(e[1] for e in ent if ids.index(e[1]) not in setup_idx) != sorted(ids[j] for j in range(len(ids)) if j not in setup_idx):
                 acc.violation(V("await_wrong_nodes", f"await #{i}: execution {s} entered {[e[1] for e in ent]}"), c, pfx, res.trace, src)
             for e in ent:
                 j = ids.index(e[1])
-                want = tuple(argv[i] if ed.src < 0 else Tok(ids[ed.src], s) for ed in p.nodes[j].edges)
+                want = tuple(argv[i] if ed.src < 0 else (val[ed.src] if ed.src in setup_idx else Tok(ids[ed.src], s)) for ed in p.nodes[j].edges)
                 if tuple(e[5]) != want:
                     acc.violation(V("await_foreign_value", f"await #{i} (argument {argv[i]}): {e[1]} received {e[5]!r}, expected {want!r}"), c, pfx, res.trace, src)
         # liveness: while an async-thread node was in flight the ticker made progress
@@ -211,9 +233,13 @@ def cases(tier):
 
 
 def run_shard(tier, k, n, acc):
+    from ..monitors import mon_c02, mon_c03
+    from ..sched import run_case
     for c in shard_iter(cases(tier), k, n, acc):
         if c["kind"] == "flavour":
             run_flavour(acc, c)
+        elif c["kind"] == "async_sched":
+            run_case(acc, c, [mon_c02, mon_c03], lambda view: tuple(e[1] for e in view.trace if e[0] in ("enter", "exit")))
         else:
             run_gather(acc, c)
 
@@ -222,6 +248,11 @@ def replay(v):
     from ..acc import Acc
     a = Acc(ID, 0, 1, 600)
     c = v["case"]
+    if c.get("kind") == "async_sched":
+        from ..monitors import mon_c02, mon_c03
+        from ..sched import replay_case
+        res, viols = replay_case(c, [mon_c02, mon_c03], v["prefix"])
+        return viols, res.trace
     if c.get("kind") == "gather":
         run_gather(a, c, only_prefix=v["prefix"])
     else:
